@@ -6,7 +6,8 @@ protocol error} x burst 1..4 x every exchange index of the operation.
 """
 from dsim import core
 from dsim.core import Violation
-from dsim.w1 import gen
+from dsim.w1 import gen, t2t, felica_lite
+from dsim.w1.device import World
 from dsim.w1.device import OK, LOSE_CMD, LOSE_RSP, CORRUPT_CMD, CORRUPT_RSP, PROTOCOL_ERR, FATE_NAMES
 
 ID = "C16"
@@ -19,13 +20,18 @@ RULE = ("one scenario = (tag type/variant, layout, operation) from the seeded ch
 COMPONENTS = {
     "real": ["nfc.tag.tt1/tt2/tt3/tt4 command primitives and transceive()/send_cmd_recv_rsp() retry loops",
              "IsoDepInitiator", "Tag.ndef/format/protect/dump/is_present", "nfc.tag.activate",
+             "nfc.tag.tt2_nxp.NTAG21x (authenticate, protect, signature)", "nfc.tag.tt3_sony.FelicaLite/FelicaLiteS "
+             "(authenticate, protect, read_with_mac, read_without_mac, write_with_mac)",
              "nfc.clf.ContactlessFrontend.exchange"],
-    "stub": ["SimDevice raising nfc.clf errors per fate script", "tag silicon models"],
+    "stub": ["SimDevice raising nfc.clf errors per fate script", "tag silicon models",
+             "vendor variants: NTAG210/212/213/215/216 (tt2_nxp) and FeliCa Lite / Lite-S (tt3_sony) silicon models; "
+             "os.urandom replaced by a per-scenario fixed sequence so that the fault-free and the faulted attempt use the same challenge"],
 }
 ASSUMPTIONS = [
     "retry budget taken from the implementation: 3 attempts for Type 1/2/3 commands (bursts <= 2 must be "
     "absorbed), n_retry of IsoDepInitiator for Type 4",
-    "a lost response to a non-idempotent command may legitimately fail; only the outcome-type clause applies",
+    "a lost response to a non-idempotent command may legitimately fail; only the outcome-type clause applies "
+    "(vendor operations with a write counter or session state: authenticate, protect, read_with_mac, write_with_mac)",
 ]
 REQUIRED_PROBES = {"quick": ["absorbed", "persisted.tagerror"], "thorough": ["absorbed", "persisted.tagerror"]}
 KINDS = [LOSE_CMD, LOSE_RSP, CORRUPT_CMD, CORRUPT_RSP, PROTOCOL_ERR]
@@ -35,10 +41,81 @@ ERRNO = {LOSE_CMD: 0, LOSE_RSP: 0, CORRUPT_CMD: 0, CORRUPT_RSP: -1, PROTOCOL_ERR
 
 def phases(tier):
     q = tier == "quick"
-    return [{"name": t, "runs": (120 if q else 8000), "params": {"type": t}} for t in ("t1", "t2", "t3", "t4")]
+    return [{"name": t, "runs": (120 if q else 8000), "params": {"type": t}} for t in ("t1", "t2", "t3", "t4")] + \
+        [{"name": t, "runs": (100 if q else 6000), "params": {"type": t}} for t in ("ntag", "lite")]
+
+
+class FixedOs(object):
+    """os.urandom stand-in: the same byte sequence in every attempt of one scenario (the random challenge of
+    the FeliCa Lite authentication must not differ between the fault-free and the faulted attempt)"""
+    def __init__(self, pool):
+        self.pool, self.pos = pool, 0
+
+    def reset(self):
+        self.pos = 0
+
+    def urandom(self, n):
+        out = bytes(self.pool[(self.pos + i) % len(self.pool)] for i in range(n))
+        self.pos += n
+        return out
+
+
+class NtagCase(object):
+    kind = "ntag"
+
+    def __init__(self, sim):
+        self.product = sim.pick("ntag.product", ["NTAG213", "NTAG210", "NTAG212", "NTAG215", "NTAG216"])
+        self.uid = b"\x04" + sim.bytes("ntag.uid", 6, tag=3)
+        self.pwd = sim.bytes("ntag.pwd", 4, tag=1)
+        self.pack = sim.bytes("ntag.pack", 2, tag=2)
+        self.key = self.pwd + self.pack
+        self.wrong = bytes([self.pwd[0] ^ 0x10]) + self.pwd[1:] + self.pack
+        self.newpw = sim.bytes("ntag.newpw", 6, tag=4)
+        self.total = t2t.NTAG21xSilicon.PRODUCTS[self.product][0] * 4
+
+    def world(self, nfc):
+        sil = t2t.NTAG21xSilicon(self.product, self.uid, pwd=self.pwd, pack=self.pack)
+        w = World(nfc, [sil])
+        w.silicon = sil
+        return w
+
+    def describe(self):
+        return {"type": self.product, "pwd": self.pwd.hex(), "pack": self.pack.hex()}
+
+
+class LiteCase(object):
+    kind = "lite"
+
+    def __init__(self, sim):
+        self.lite_s = sim.chance("lite.s", 0.6)
+        self.product = "FelicaLiteS" if self.lite_s else "FelicaLite"
+        self.key = sim.bytes("lite.key", 16, tag=2)
+        self.wrong = bytes([self.key[0] ^ 0x10]) + self.key[1:]
+        self.newpw = sim.bytes("lite.newpw", 16, tag=4)
+        self.idm = b"\x01\x27\x00" + sim.bytes("lite.idm", 5, tag=1)
+        self.user = dict((b, sim.bytes("lite.user", 16, tag=10 + b)) for b in range(1, 5))
+        self.nbr, self.nbw, self.nmaxb = 4, 1, 13
+
+    def world(self, nfc):
+        sil = felica_lite.LiteSilicon(self.idm, lite_s=self.lite_s, ck=self.key, ndef=True, user=self.user)
+        w = World(nfc, [sil])
+        w.silicon = sil
+        return w
+
+    def describe(self):
+        return {"type": self.product}
+
+
+VENDOR = {"ntag": NtagCase, "lite": LiteCase}
 
 
 def ops_for(typ, case):
+    if typ == "ntag":
+        return ["ndef_read", "ndef_write", "is_present", "dump", "activate", "read", "write", "authenticate",
+                "authenticate_wrong", "protect_pw", "signature", "format"]
+    if typ == "lite":
+        return ["ndef_read", "ndef_write", "is_present", "dump", "activate", "authenticate", "authenticate_wrong",
+                "protect_pw", "read_with_mac", "read_without_mac", "format"] + (["write_with_mac"] if case.lite_s else [])
     common = ["ndef_read", "ndef_write", "is_present", "format", "format_wipe", "dump", "protect", "activate"]
     if typ == "t1":
         extra = ["read_id", "read_all", "read_byte", "write_byte"] + (["read_block", "write_block", "read_segment"]
@@ -80,6 +157,26 @@ def do_op(nfc, w, tag, op, case, arg):
         return tuple(tag.dump())
     if op == "protect":
         return tag.protect()
+    if op == "authenticate":
+        return tag.authenticate(case.key)
+    if op == "authenticate_wrong":
+        return tag.authenticate(case.wrong)
+    if op == "protect_pw":
+        return tag.protect(case.newpw, protect_from=4)
+    if op == "signature":
+        return bytes(tag.signature)
+    if op == "read_with_mac":
+        if tag.authenticate(case.key) is not True:
+            return "auth-failed"
+        r = tag.read_with_mac(1, 2)
+        return None if r is None else bytes(r)
+    if op == "read_without_mac":
+        return bytes(tag.read_without_mac(1, 2, 3))
+    if op == "write_with_mac":
+        if tag.authenticate(case.key) is not True:
+            return "auth-failed"
+        tag.write_with_mac(bytearray(arg["data"][:16]), 3)
+        return "ok"
     if op == "read_id":
         return bytes(tag.read_id())
     if op == "read_all":
@@ -97,6 +194,8 @@ def do_op(nfc, w, tag, op, case, arg):
         return bytes(tag.read_segment(arg["addr"] % max(1, case.layout.size // 128)))
     if op == "read":
         return bytes(tag.read(arg["addr"] % (case.total // 4 - 3)))
+    if op == "write" and case.kind == "ntag":
+        return tag.write(4 + arg["addr"] % 8, bytearray(arg["data"][:4].ljust(4, b"\1")))
     if op == "write":
         return tag.write(4 + arg["addr"] % (case.layout.data_area // 4), bytearray(arg["data"][:4].ljust(4, b"\1")))
     if op == "polling":
@@ -120,6 +219,8 @@ def do_op(nfc, w, tag, op, case, arg):
 IDEMPOTENT_OPS = {"ndef_read", "is_present", "dump", "read_id", "read_all", "read_byte", "read_block",
                   "read_segment", "read", "polling", "read_blocks", "select_read", "activate",
                   "write_byte", "write_block", "write", "write_blocks", "ndef_write", "format", "format_wipe"}
+# the tag changes state when it executes these (write counter, session): a lost *response* may legitimately fail
+NON_IDEMPOTENT = {"write_with_mac", "authenticate", "protect_pw", "read_with_mac", "authenticate_wrong"}
 ERROR_AS_SIGNAL = {"dump", "format", "format_wipe", "format_default", "format_wipe_wide", "activate", "is_present", "ndef_read", "protect", "ndef_write"}
 PRIMITIVES = {"read_id", "read_all", "read_byte", "write_byte", "read_block", "write_block", "read_segment",
               "read", "write", "polling", "read_blocks", "write_blocks", "send_apdu", "select_read"}
@@ -130,14 +231,32 @@ def run_one(sim, params):
     import nfc.tag
     import nfc.clf
     typ = params["type"]
+    fixed_os = None
+    if typ in VENDOR:
+        import nfc.tag.tt3_sony
+        import nfc.tag.tt2_nxp
+        case = VENDOR[typ](sim)
+        fixed_os = FixedOs(sim.bytes("urandom.pool", 64, tag=98))
+        saved_os = (nfc.tag.tt3_sony.os, nfc.tag.tt2_nxp.os)
+        nfc.tag.tt3_sony.os = nfc.tag.tt2_nxp.os = fixed_os
+        try:
+            return scenario(sim, params, nfc, typ, case, fixed_os)
+        finally:
+            nfc.tag.tt3_sony.os, nfc.tag.tt2_nxp.os = saved_os
     kw = {"protocol_variants": False} if typ == "t4" else {}
     case = gen.GENERATORS[typ](sim, **kw)
+    return scenario(sim, params, nfc, typ, case, None)
+
+
+def scenario(sim, params, nfc, typ, case, fixed_os):
     op = sim.pick("op", ops_for(typ, case))
     arg = {"addr": sim.choose("arg.addr", 4096), "val": sim.choose("arg.val", 256),
            "data": sim.bytes("arg.data", 400, tag=7), "t3": typ == "t3"}
     desc = dict(case.describe(), op=op)
 
     def attempt(script_pos, kind, burst):
+        if fixed_os is not None:
+            fixed_os.reset()
         with case.world(nfc) as w:
             try:
                 tag = w.discover()
@@ -221,7 +340,9 @@ def run_one(sim, params):
                             "%s under [%s] raised %r (%s); %r" % (op, fdesc, r["val"], core.exc_line(r["val"]), desc), ov)
         within = r["fired"] <= budget
         executed = k in (LOSE_RSP, CORRUPT_RSP, PROTOCOL_ERR)
-        if within and r["fired"] > 0:
+        if within and r["fired"] > 0 and executed and op in NON_IDEMPOTENT and typ in VENDOR:
+            sim.probe("non_idempotent.outcome_type_only")
+        elif within and r["fired"] > 0:
             same = (r["out"] == base["out"] and
                     (repr(r["val"]) == repr(base["val"]) or r["out"] == "tagerror"))
             if typ == "t4":
